@@ -486,6 +486,9 @@ ada_really_inline bool url_aggregator::parse_host(std::string_view input) {
           " bytes]");
   ADA_ASSERT_TRUE(validate());
   ADA_ASSERT_TRUE(!helpers::overlaps(input, buffer));
+  // The host is about to be replaced: its kind is recomputed below (the IPv4
+  // and IPv6 branches set it), a domain or opaque host is of the default kind.
+  host_type = url_host_type::DEFAULT;
   if (input.empty()) {
     return is_valid = false;
   }  // technically unnecessary.
@@ -679,6 +682,7 @@ bool url_aggregator::set_host_or_hostname(const std::string_view input) {
       // Let host be the result of host parsing host_view with url is not
       // special.
       if (host_view.empty() && !is_special()) {
+        host_type = url_host_type::DEFAULT;
         if (has_hostname()) {
           clear_hostname();  // easy!
         } else if (has_dash_dot()) {
@@ -712,6 +716,7 @@ bool url_aggregator::set_host_or_hostname(const std::string_view input) {
   if (new_host.empty()) {
     // Set url's host to the empty string.
     clear_hostname();
+    host_type = url_host_type::DEFAULT;
   } else {
     // Let host be the result of host parsing buffer with url is not special.
     if (!parse_host(new_host)) {
